@@ -9,6 +9,11 @@ sys.path.insert(0, os.path.dirname(os.path.dirname(os.path.abspath(__file__))))
 from vlib import common as C  # noqa: E402
 from vlib import x_kernels  # noqa: E402
 
+import subprocess
+st = subprocess.run(['git', '-C', C.REPO, 'status', '--porcelain', '--untracked-files=no'], capture_output=True, text=True).stdout.strip()
+if st:
+    print('refusing to refresh the goldens: %s has uncommitted changes (a seeded change under test?)\n%s' % (C.REPO, st))
+    sys.exit(2)
 lib = C.build_lib('fiber')
 for f in os.listdir(lib):
     if f.startswith('kernels-'):
